@@ -293,7 +293,9 @@ def gen_block(R):
 
     def dquote():
         body = "".join(
-            R.choice(["a", "b", " ", "'", '\\"', "\\\\", "\\n", "\\t", "\\x41", "\\u00e9", "\\U0001F600", "\\\n  ", "\n ", "\n\n  ", "#", ":", "\\ ", "\\/", "\\e", "\\_", "\\N", "\\L", "\\P", "\\0", "\\a", "\\b", "\\v", "\\f", "\\r", "\\\t", "\\xZZ", "\\u12", "\\UFFFFFFFF", "\\U00110000", "\\U0010FFFF", "\\uD800", "\\q", "\\\r\n ", "\t", " \n \n "])
+            R.choice(["a", "b", " ", "'", '\\"', "\\\\", "\\n", "\\t", "\\x41", "\\u00e9", "\\U0001F600", "\\\n  ", "\n ", "\n\n  ", "#", ":", "\\ ", "\\/", "\\e", "\\_", "\\N", "\\L", "\\P", "\\0", "\\a", "\\b", "\\v", "\\f", "\\r", "\\\t", "\\xZZ", "\\u12", "\\UFFFFFFFF", "\\U00110000", "\\U0010FFFF", "\\uD800", "\\q", "\\\r\n ", "\t", " \n \n ",
+                      # numeric escapes whose body is not made of hex digits only (sign, separator, space, prefix, too short at end of text)
+                      "\\x-1", "\\x+1", "\\x_1", "\\x 1", "\\u-041", "\\u00_1", "\\u 041", "\\U-0000041", "\\U+0000041", "\\U0000_041", "\\x0x", "\\u0x41", "\\x", "\\u", "\\U", "\\x4", "\\u004", "\\U0000004"])
             for _ in range(R.randint(0, 6))
         )
         return '"' + body + '"'
@@ -386,6 +388,23 @@ def run_shard(ctx):
     ctx.case(n=n)
     ctx.enumerated(n)
     ctx.subrun("exhaustive_value_position", exhaustive=complete, max_len=vmax, alphabet=valpha, strings=n)
+    # --- 2b. bodies of the numeric escapes of double-quoted scalars (sign, separator, space, prefix, quote, too short)
+    import itertools as _it
+
+    ealpha = "0A-+_ x\""
+    n = 0
+    for esc, width in (("x", 2), ("u", 4), ("U", 3)):
+        for ln in range(0, width + 1):
+            for body in _it.product(ealpha, repeat=ln):
+                n += 1
+                if n % ctx.nshards != ctx.shard:
+                    continue
+                b = "".join(body) + ("00041" if esc == "U" and ln == width else "")
+                for text in (f'k: "\\{esc}{b}"', f'"\\{esc}{b}": v', f'k: "\\{esc}{b}'):
+                    outcomes[run_one(ctx, text)] += 1
+                    ctx.case(n=1)
+                    ctx.enumerated(1)
+    ctx.subrun("exhaustive_escape_bodies", exhaustive=True, alphabet=ealpha, bodies=n)
     # --- 3. grammar-generated blocks (+ offsets, + through the directive parser)
     n_g = 6000 if quick else 250000
     for i in range(n_g):
